@@ -10,7 +10,7 @@ CONSTANTS
   WithAux = TRUE
   MinCalls = 0
   WithAsm = FALSE
-  WithRefusals = TRUE
+  WithRefusals = FALSE
 INVARIANTS WellFormedInv IndexExactInv ContentInv CrcInv StatsInv LiveStatsInv
 PROPERTY Monotone
 CHECK_DEADLOCK FALSE
